@@ -3,14 +3,15 @@
 # Applies each stored seeded change to /repo, runs the quick check of its property, reverts it,
 # and prints whether the check caught it. Refuses to run when /repo has uncommitted changes.
 export GOFLAGS=-mod=mod GOPROXY=off GOSUMDB=off GOTOOLCHAIN=local
-cd /repo && [ -z "$(git status --porcelain --untracked-files=no)" ] || { echo "/repo has uncommitted changes: commit them first"; exit 2; }
-cd /verif/seeded
+R=${VERIF_REPO:-/repo}; V=${VERIF_DIR:-/verif}
+cd $R && [ -z "$(git status --porcelain --untracked-files=no)" ] || { echo "$R has uncommitted changes: commit them first"; exit 2; }
+cd $V/seeded
 for d in ${@:-$(ls)}; do
-  [ -f /verif/seeded/$d/patch.diff ] || continue
-  p=$(python3 -c "import json;print(json.load(open('/verif/seeded/$d/meta.json'))['property'])")
-  (cd /repo && git apply /verif/seeded/$d/patch.diff) || { echo "$d | $p | PATCH DOES NOT APPLY"; continue; }
-  o=$(cd /verif && VERIF_EVIDENCE_DIR=/tmp/verif-seed-evidence ./check $p quick 2>&1); rc=$?
-  (cd /repo && git checkout -q -- .)
+  [ -f $V/seeded/$d/patch.diff ] || continue
+  p=$(python3 -c "import json;print(json.load(open('$V/seeded/$d/meta.json'))['property'])")
+  (cd $R && git apply $V/seeded/$d/patch.diff) || { echo "$d | $p | PATCH DOES NOT APPLY"; continue; }
+  o=$(cd $V && VERIF_EVIDENCE_DIR=/tmp/verif-seed-evidence ./check $p quick 2>&1); rc=$?
+  (cd $R && git checkout -q -- .)
   first=$(echo "$o" | grep "failed obligation\|failed bounded" | head -2 | cut -c1-170 | tr '\n' ';')
   if [ $rc -eq 1 ]; then echo "$d | $p | caught | $first"; else echo "$d | $p | MISSED (rc=$rc)"; fi
 done
